@@ -100,7 +100,7 @@ def check_trace(ctx, evs, d, tag, what, replay):
     if crashed:   # nothing after a crash/hang is meaningful: validate up to it
         k = evs.index(crashed[0]); evs = evs[:k + 1]
     ok, info, r = tp.validate(ctx, prep(evs), d, tag, KEEP)
-    for dv in set(re.findall(r'"DEVIATION",\s*"([^"]+)"', r.out)):
+    for dv in tp.deviations("C11", r.out):
         ctx.fail("deviation:" + dv, "named deviation action of TpLife/TpBcast taken in scenario %s" % what, replay)
     return ok, info
 
